@@ -765,11 +765,11 @@ Proof.
   rewrite IH. reflexivity.
 Qed.
 
-Lemma encode_entry_length : forall ss hi name typ start size,
+Lemma encode_entry_length : forall ss hi lk name typ start size,
   (length (utf16_encode name) <= 32)%nat ->
-  length (encode_entry ss hi (name, typ, start, size)) = 128%nat.
+  length (encode_entry ss hi lk (name, typ, start, size)) = 128%nat.
 Proof.
-  intros ss hi name typ start size Hn. unfold encode_entry.
+  intros ss hi [[lft rgt] chd] name typ start size Hn. unfold encode_entry.
   rewrite !app_length. rewrite pad_to_length by (rewrite bytes_le_length; lia).
   destruct (ss =? 512); unfold le64; rewrite ?app_length, ?le32_length; reflexivity.
 Qed.
@@ -1118,14 +1118,14 @@ Lemma valid_dir : forall c l, valid_layout c l ->
   NoDup (l_slots l) /\ (forall s, In s (l_slots l) -> 1 <= s < N.of_nat (nslots c l)) /\
   length (l_slots l) = (length (c_storages c) + length (c_streams c))%nat /\
   length (l_chains l) = length (c_streams c) /\
-  (forall n, In n (all_names c) -> valid_nameb n = true) /\ NoDup (all_names c).
+  (forall n, In n (all_names c) -> valid_nameb n = true) /\ hier_okb c = true.
 Proof.
   intros c l Hv. unfold valid_layout, valid_layoutb in Hv. split_andb Hv.
   split; [apply nodupb_NoDup; exact V12|]. split.
   - intros s Hs. pose proof (forallb_In _ _ V11 _ Hs) as H. apply andb_prop in H. destruct H as [H1 H2].
     apply N.leb_le in H1. apply N.ltb_lt in H2. lia.
   - split; [apply Nat.eqb_eq; exact V10|]. split; [apply Nat.eqb_eq; exact V9|].
-    split; [apply forallb_In; exact V8|apply nodup_listb_NoDup; exact V7].
+    split; [apply forallb_In; exact V8|exact V7].
 Qed.
 
 Lemma items_names_eq : forall c l, length (l_chains l) = length (c_streams c) ->
@@ -1177,11 +1177,18 @@ Proof.
   - unfold seqN. apply seqN_from_In. lia.
 Qed.
 
-Lemma dirs_name_unique : forall c l d it, valid_layout c l ->
+(* all names of the container distinct (over the whole file, not only per storage): the flat
+   lookup of calamine then cannot meet another entry *)
+Definition names_unique (c : container) : Prop := names_uniqueb c = true.
+Lemma names_unique_NoDup : forall c, names_unique c -> NoDup (all_names c).
+Proof. intros c H. apply nodup_listb_NoDup. exact H. Qed.
+
+Lemma dirs_name_unique : forall c l d it, valid_layout c l -> names_unique c ->
   In d (parsed_dirs c l) -> In it (items c l) -> d_name d = fst (fst (fst it)) ->
   d = dirent_of_item it.
 Proof.
-  intros c l d it Hv Hd Hit Hname. destruct (valid_dir Hv) as [_ [_ [_ [Hlc [Hval Hndn]]]]].
+  intros c l d it Hv Hu Hd Hit Hname. destruct (valid_dir Hv) as [_ [_ [_ [Hlc [Hval _]]]]].
+  pose proof (names_unique_NoDup Hu) as Hndn.
   pose proof (items_names _ _ _ Hit) as Hn. pose proof (Hval _ Hn) as Hvn.
   unfold valid_nameb in Hvn. split_andb Hvn.
   unfold parsed_dirs in Hd. apply in_map_iff in Hd. destruct Hd as [j [<- _]].
@@ -1197,13 +1204,13 @@ Proof.
       cbn in Hvn. discriminate.
 Qed.
 
-Lemma find_item : forall c l it, valid_layout c l -> In it (items c l) ->
+Lemma find_item : forall c l it, valid_layout c l -> names_unique c -> In it (items c l) ->
   find_dir (fst (fst (fst it))) (parsed_dirs c l) = Some (dirent_of_item it).
 Proof.
-  intros c l it Hv Hit. unfold find_dir.
+  intros c l it Hv Hu Hit. unfold find_dir.
   destruct (find (fun d => list_eqb (d_name d) (fst (fst (fst it)))) (parsed_dirs c l)) as [d|] eqn:E.
   - apply find_some in E. destruct E as [Hd Hn]. apply list_eqb_eq in Hn.
-    f_equal. apply (@dirs_name_unique c l d it Hv Hd Hit Hn).
+    f_equal. apply (@dirs_name_unique c l d it Hv Hu Hd Hit Hn).
   - exfalso. pose proof (find_none _ _ E _ (@item_in_dirs c l it Hv Hit)) as H.
     cbn [dirent_of_item d_name] in H.
     rewrite (proj2 (list_eqb_eq _ _) eq_refl) in H. discriminate.
@@ -1240,18 +1247,18 @@ Proof.
   intros ->. cbn [length] in Hlen. lia.
 Qed.
 
-Theorem layout_independent_partial : forall c l, valid_layout c l ->
+Theorem layout_independent_partial : forall c l, valid_layout c l -> names_unique c ->
   forall n b, In (n, b) (c_streams c) ->
   forall ms r, Inv (c_ss c) (body_bytes c l) ms r ->
   exists c' r', get_stream (parsed_cfb c l ms) n r = Ok (b, c', r').
 Proof.
-  intros c l Hv n b Hin ms r HI.
+  intros c l Hv Hu n b Hin ms r HI.
   destruct (valid_dir Hv) as [_ [_ [_ [Hlc _]]]].
   destruct (stream_has_chain c l n b Hlc Hin) as [ch Hch].
   set (it := (n, 2, hd (l_empty_start l) ch, lenN b)).
   assert (Hit : In it (items c l)).
   { unfold items. apply in_or_app. right. apply in_map_iff. exists ((n, b), ch). split; [reflexivity|exact Hch]. }
-  pose proof (@find_item c l it Hv Hit) as Hf. subst it. cbn [fst] in Hf.
+  pose proof (@find_item c l it Hv Hu Hit) as Hf. subst it. cbn [fst] in Hf.
   destruct (stream_ok_facts _ _ _ Hv Hch) as [_ [H32 _]].
   destruct (N.eq_dec (lenN b) 0) as [H0|Hne].
   { (* the empty stream *)
@@ -1296,15 +1303,16 @@ Qed.
 
 (* two valid containers (any sector sizes, any layouts) holding the same stream read the same *)
 Corollary same_streams_same_read_partial : forall c1 l1 c2 l2 n b,
-  valid_layout c1 l1 -> valid_layout c2 l2 -> In (n, b) (c_streams c1) -> In (n, b) (c_streams c2) ->
+  valid_layout c1 l1 -> valid_layout c2 l2 -> names_unique c1 -> names_unique c2 ->
+  In (n, b) (c_streams c1) -> In (n, b) (c_streams c2) ->
   forall ms1 r1 ms2 r2, Inv (c_ss c1) (body_bytes c1 l1) ms1 r1 -> Inv (c_ss c2) (body_bytes c2 l2) ms2 r2 ->
   exists x c1' r1' c2' r2',
     get_stream (parsed_cfb c1 l1 ms1) n r1 = Ok (x, c1', r1') /\
     get_stream (parsed_cfb c2 l2 ms2) n r2 = Ok (x, c2', r2').
 Proof.
-  intros c1 l1 c2 l2 n b H1 H2 I1 I2 ms1 r1 ms2 r2 J1 J2.
-  destruct (@layout_independent_partial c1 l1 H1 n b I1 ms1 r1 J1) as [a1 [b1 E1]].
-  destruct (@layout_independent_partial c2 l2 H2 n b I2 ms2 r2 J2) as [a2 [b2 E2]].
+  intros c1 l1 c2 l2 n b H1 H2 U1 U2 I1 I2 ms1 r1 ms2 r2 J1 J2.
+  destruct (@layout_independent_partial c1 l1 H1 U1 n b I1 ms1 r1 J1) as [a1 [b1 E1]].
+  destruct (@layout_independent_partial c2 l2 H2 U2 n b I2 ms2 r2 J2) as [a2 [b2 E2]].
   exists b, a1, b1, a2, b2. split; assumption.
 Qed.
 
@@ -1844,11 +1852,11 @@ Definition item_ok (it : list N * N * N * N) : Prop :=
   (length (utf16_encode (fst (fst (fst it)))) <= 31)%nat /\
   snd (fst it) < 4294967296 /\ snd it < 4294967296.
 
-Lemma from_slice_entry : forall ss hi it, ss = 512 \/ ss = 4096 -> item_ok it ->
-  from_slice (encode_entry ss hi it) ss = Ok (dirent_of_item it).
+Lemma from_slice_entry : forall ss hi lk it, ss = 512 \/ ss = 4096 -> item_ok it ->
+  from_slice (encode_entry ss hi lk it) ss = Ok (dirent_of_item it).
 Proof.
-  intros ss hi [[[name typ] start] size] Hss (Hs & Hz & Hl & Hst & Hsz). cbn [fst snd] in *.
-  assert (Hlen : length (encode_entry ss hi (name, typ, start, size)) = 128%nat)
+  intros ss hi [[lft rgt] chd] [[[name typ] start] size] Hss (Hs & Hz & Hl & Hst & Hsz). cbn [fst snd] in *.
+  assert (Hlen : length (encode_entry ss hi (lft, rgt, chd) (name, typ, start, size)) = 128%nat)
     by (apply encode_entry_length; lia).
   unfold from_slice. rewrite Hlen.
   change (128 <? 64)%nat with false. change (128 <? 120)%nat with false.
@@ -1861,7 +1869,7 @@ Proof.
   change 116%nat with (64 + 52)%nat. change 120%nat with (64 + 56)%nat.
   rewrite (u32_at_app _ _ 52 Hx).
   assert (H116 : forall tail, u32_at (le16 (if typ =? 0 then 0 else 2 * (N.of_nat (length (utf16_encode name)) + 1)) ++
-                  [typ; 1] ++ le32 FREESECT ++ le32 FREESECT ++ le32 FREESECT ++ repeat 0 36 ++
+                  [typ; 1] ++ le32 lft ++ le32 rgt ++ le32 chd ++ repeat 0 36 ++
                   le32 start ++ tail) 52 = start).
   { intros tail. unfold u32_at. cbn [le16 le32 app repeat nth Nat.add]. apply le32_value. exact Hst. }
   rewrite H116.
@@ -2144,18 +2152,19 @@ Proof.
     apply N.ltb_ge in Emf. nia.
 Qed.
 
-(* get_stream on any Cfb value that holds the written tables *)
-Theorem get_stream_written : forall c l cf r, valid_layout c l -> written_cfb c l cf r ->
-  forall n b, In (n, b) (c_streams c) ->
+(* the directory entry written for a stream and its chain *)
+Definition stream_item (l : layout) (p : list N * list N * list N) : list N * N * N * N :=
+  (fst (fst p), 2, hd (l_empty_start l) (snd p), lenN (snd (fst p))).
+
+(* get_stream on any Cfb value that holds the written tables, ONCE THE LOOKUP ENDS ON THE ENTRY
+   OF THE STREAM: the bytes are the stream's *)
+Lemma get_stream_of_entry : forall c l cf r, valid_layout c l -> written_cfb c l cf r ->
+  forall n b ch, In ((n, b), ch) (stream_chains c l) ->
+  find_dir n (directories cf) = Some (dirent_of_item (stream_item l ((n, b), ch))) ->
   exists c' r', get_stream cf n r = Ok (b, c', r').
 Proof.
-  intros c l cf r Hv (Hdirs & Hfats & HI & Hmini) n b Hin.
-  destruct (valid_dir Hv) as [_ [_ [_ [Hlc _]]]].
-  destruct (stream_has_chain c l n b Hlc Hin) as [ch Hch].
-  set (it := (n, 2, hd (l_empty_start l) ch, lenN b)).
-  assert (Hit : In it (items c l)).
-  { unfold items. apply in_or_app. right. apply in_map_iff. exists ((n, b), ch). split; [reflexivity|exact Hch]. }
-  pose proof (@find_item c l it Hv Hit) as Hf. subst it. cbn [fst] in Hf. rewrite <- Hdirs in Hf.
+  intros c l cf r Hv (Hdirs & Hfats & HI & Hmini) n b ch Hch Hf.
+  unfold stream_item in Hf. cbn [fst snd] in Hf.
   destruct (stream_ok_facts _ _ _ Hv Hch) as [_ [H32 _]].
   destruct (N.eq_dec (lenN b) 0) as [H0|Hne].
   { rewrite (@empty_stream cf n _ r Hf) by exact H0.
@@ -2194,21 +2203,37 @@ Proof.
       split; [reflexivity|]. apply filter_In. split; [exact Hch|cbn [fst snd]; rewrite Hbig; reflexivity].
 Qed.
 
+(* names distinct over the whole file: every stream is read back *)
+Theorem get_stream_written : forall c l cf r, valid_layout c l -> names_unique c -> written_cfb c l cf r ->
+  forall n b, In (n, b) (c_streams c) ->
+  exists c' r', get_stream cf n r = Ok (b, c', r').
+Proof.
+  intros c l cf r Hv Hu Hw n b Hin.
+  destruct (valid_dir Hv) as [_ [_ [_ [Hlc _]]]].
+  destruct (stream_has_chain c l n b Hlc Hin) as [ch Hch].
+  assert (Hit : In (stream_item l ((n, b), ch)) (items c l)).
+  { unfold items. apply in_or_app. right. apply in_map_iff. exists ((n, b), ch). split; [reflexivity|exact Hch]. }
+  pose proof (@find_item c l _ Hv Hu Hit) as Hf. cbn [stream_item fst snd] in Hf.
+  destruct Hw as (Hdirs & Hrest). rewrite <- Hdirs in Hf.
+  apply (@get_stream_of_entry c l cf r Hv (conj Hdirs Hrest) n b ch Hch). exact Hf.
+Qed.
+
 (* (3) layout independence, through the bytes *)
-Theorem layout_independent : forall c l fuel, valid_layout c l -> (fuel_for l <= fuel)%nat ->
+Theorem layout_independent : forall c l fuel, valid_layout c l -> names_unique c -> (fuel_for l <= fuel)%nat ->
   forall n b, In (n, b) (c_streams c) -> cfb_get_stream fuel (cfb_write c l) n = Ok b.
 Proof.
-  intros c l fuel Hv Hfuel n b Hin. unfold cfb_get_stream.
+  intros c l fuel Hv Hu Hfuel n b Hin. unfold cfb_get_stream.
   destruct (cfb_new_written Hv Hfuel) as [cf [r [Hnew Hw]]]. rewrite Hnew. cbn [obind].
-  destruct (get_stream_written Hv Hw n b Hin) as [c' [r' Hg]]. rewrite Hg. reflexivity.
+  destruct (get_stream_written Hv Hu Hw n b Hin) as [c' [r' Hg]]. rewrite Hg. reflexivity.
 Qed.
 
 Corollary same_streams_same_read : forall c1 l1 c2 l2 n b,
-  valid_layout c1 l1 -> valid_layout c2 l2 -> In (n, b) (c_streams c1) -> In (n, b) (c_streams c2) ->
+  valid_layout c1 l1 -> valid_layout c2 l2 -> names_unique c1 -> names_unique c2 ->
+  In (n, b) (c_streams c1) -> In (n, b) (c_streams c2) ->
   cfb_get_stream (fuel_for l1) (cfb_write c1 l1) n = cfb_get_stream (fuel_for l2) (cfb_write c2 l2) n.
 Proof.
-  intros c1 l1 c2 l2 n b H1 H2 I1 I2.
-  rewrite (layout_independent H1 (le_n _) n b I1), (layout_independent H2 (le_n _) n b I2). reflexivity.
+  intros c1 l1 c2 l2 n b H1 H2 U1 U2 I1 I2.
+  rewrite (layout_independent H1 U1 (le_n _) n b I1), (layout_independent H2 U2 (le_n _) n b I2). reflexivity.
 Qed.
 
 (* interface for C20: the written file opens and every name is listed in the directory *)
@@ -2225,6 +2250,300 @@ Proof.
   split; [exists (dirent_of_item it); split; [exact Hd|reflexivity]|].
   unfold has_directory. apply existsb_exists. exists (dirent_of_item it).
   split; [exact Hd|]. cbn [dirent_of_item d_name]. apply list_eqb_eq. reflexivity.
+Qed.
+
+(* ================================================================== Part 4b: duplicate names *)
+(* names unique per storage only: which entry the flat scan of Cfb::get_stream reaches *)
+Lemma list_eqb_refl : forall a, list_eqb a a = true.
+Proof. intros a. apply list_eqb_eq. reflexivity. Qed.
+Lemma list_eqb_neq : forall a b, a <> b -> list_eqb a b = false.
+Proof. intros a b H. destruct (list_eqb a b) eqn:E; [apply list_eqb_eq in E; contradiction|reflexivity]. Qed.
+
+Lemma find_map_seqN_from : forall (A : Type) (p : A -> bool) (f : N -> A) n start s,
+  start <= s -> s < start + N.of_nat n -> p (f s) = true ->
+  (forall i, start <= i -> i < s -> p (f i) = false) ->
+  find p (map f (seqN_from start n)) = Some (f s).
+Proof.
+  induction n as [|n IH]; intros start s H1 H2 Hp Hlt; [lia|].
+  cbn [seqN_from map find]. destruct (N.eq_dec start s) as [->|Hne].
+  - rewrite Hp. reflexivity.
+  - rewrite (Hlt start) by lia. apply IH; try lia; [exact Hp|]. intros i Hi1 Hi2. apply Hlt; lia.
+Qed.
+
+Lemma find_map_seqN_none : forall (A : Type) (p : A -> bool) (f : N -> A) n start,
+  (forall i, start <= i -> i < start + N.of_nat n -> p (f i) = false) ->
+  find p (map f (seqN_from start n)) = None.
+Proof.
+  induction n as [|n IH]; intros start H; [reflexivity|].
+  cbn [seqN_from map find]. rewrite (H start) by lia. apply IH. intros i Hi1 Hi2. apply H; lia.
+Qed.
+
+Lemma min_slot_none : forall n tbl, min_slot n tbl = None ->
+  forall s it, In (s, it) tbl -> item_name it <> n.
+Proof.
+  intros n. induction tbl as [|[s0 it0] r IH]; intros H s it Hin; [destruct Hin|].
+  cbn [min_slot] in H. destruct (list_eqb (item_name it0) n) eqn:E.
+  - destruct (min_slot n r); discriminate.
+  - destruct Hin as [Heq|Hin].
+    + inversion Heq; subst. intros Hc. rewrite Hc, list_eqb_refl in E. discriminate.
+    + apply (IH H _ _ Hin).
+Qed.
+
+Lemma min_slot_some : forall n tbl s, min_slot n tbl = Some s ->
+  (exists it, In (s, it) tbl /\ item_name it = n) /\
+  (forall s' it', In (s', it') tbl -> item_name it' = n -> s <= s').
+Proof.
+  intros n. induction tbl as [|[s0 it0] r IH]; intros s H; [discriminate|].
+  cbn [min_slot] in H. destruct (list_eqb (item_name it0) n) eqn:E.
+  - apply list_eqb_eq in E. destruct (min_slot n r) as [s1|] eqn:Er.
+    + destruct (IH s1 eq_refl) as [[it1 [Hin1 Hn1]] Hmin1]. inversion H; subst s.
+      split.
+      * destruct (N.min_spec s0 s1) as [[_ ->]|[_ ->]].
+        -- exists it0. split; [left; reflexivity|exact E].
+        -- exists it1. split; [right; exact Hin1|exact Hn1].
+      * intros s' it' [Heq|Hin] Hn'.
+        -- inversion Heq; subst. lia.
+        -- pose proof (Hmin1 _ _ Hin Hn'). lia.
+    + inversion H; subst s. split.
+      * exists it0. split; [left; reflexivity|exact E].
+      * intros s' it' [Heq|Hin] Hn'; [inversion Heq; subst; lia|].
+        exfalso. apply (@min_slot_none _ _ Er _ _ Hin Hn').
+  - destruct (IH s H) as [[it1 [Hin1 Hn1]] Hmin1]. split.
+    + exists it1. split; [right; exact Hin1|exact Hn1].
+    + intros s' it' [Heq|Hin] Hn'; [inversion Heq; subst s' it'; rewrite Hn', list_eqb_refl in E; discriminate|].
+      apply (Hmin1 _ _ Hin Hn').
+Qed.
+
+Lemma min_slot_none_iff : forall n tbl,
+  (forall s it, In (s, it) tbl -> item_name it <> n) -> min_slot n tbl = None.
+Proof.
+  intros n tbl H. destruct (min_slot n tbl) as [s|] eqn:E; [|reflexivity].
+  destruct (min_slot_some _ _ E) as [[it [Hin Hn]] _]. exfalso. apply (H _ _ Hin Hn).
+Qed.
+
+(* the item written in a slot *)
+Lemma dir_item_at : forall c l s it, valid_layout c l -> In (s, it) (slot_table c l) ->
+  dir_item c l s = it /\ 1 <= s < N.of_nat (nslots c l).
+Proof.
+  intros c l s it Hv Hs. destruct (valid_dir Hv) as [Hnd [Hrange [Hls [Hlc _]]]].
+  pose proof Hs as Hs'. unfold slot_table in Hs'. pose proof (in_combine_l _ _ _ _ Hs') as Hsl.
+  destruct (Hrange s Hsl) as [H1 H2]. split; [|lia].
+  unfold dir_item, dir_item_of. replace (s =? 0) with false by (symmetry; apply N.eqb_neq; lia).
+  rewrite (assocN_In _ s it); [reflexivity| |exact Hs].
+  unfold slot_table. rewrite map_fst_combine, (items_length c l Hlc), <- Hls, firstn_all. exact Hnd.
+Qed.
+
+Lemma slot_item_unique : forall c l s it it', valid_layout c l ->
+  In (s, it) (slot_table c l) -> In (s, it') (slot_table c l) -> it = it'.
+Proof.
+  intros c l s it it' Hv H1 H2.
+  destruct (dir_item_at _ _ Hv H1) as [E1 _]. destruct (dir_item_at _ _ Hv H2) as [E2 _]. congruence.
+Qed.
+
+Lemma slot_table_names : forall c l s it, In (s, it) (slot_table c l) -> In (item_name it) (all_names c).
+Proof.
+  intros c l s it H. unfold slot_table in H. apply in_combine_r in H. apply (items_names _ _ _ H).
+Qed.
+
+Lemma valid_name_not_special : forall n, valid_nameb n = true -> n <> [] /\ n <> ROOT_NAME.
+Proof.
+  intros n H. unfold valid_nameb in H. split_andb H. split; intros ->.
+  - cbn in H. discriminate.
+  - rewrite list_eqb_refl in V. discriminate.
+Qed.
+
+(* (G8) Cfb::get_stream / find_dir on a written container: the entry in the LOWEST slot among the
+   objects carrying the name — whatever storage holds it, storage or stream — or none *)
+Theorem find_dir_first : forall c l n, valid_layout c l -> n <> [] -> n <> ROOT_NAME ->
+  find_dir n (parsed_dirs c l) =
+  match first_slot c l n with
+  | Some s => Some (dirent_of_item (dir_item c l s))
+  | None => None
+  end.
+Proof.
+  intros c l n Hv Hne Hnr. unfold find_dir, parsed_dirs, seqN, first_slot.
+  set (p := fun d : dirent => list_eqb (d_name d) n).
+  set (f := fun i : N => dirent_of_item (dir_item c l i)).
+  assert (Hother : forall i, (forall it, In (i, it) (slot_table c l) -> item_name it <> n) -> p (f i) = false).
+  { intros i Hi. unfold p, f. cbn [dirent_of_item d_name]. apply list_eqb_neq.
+    unfold dir_item, dir_item_of. destruct (i =? 0).
+    - cbn [root_item fst]. congruence.
+    - destruct (assocN i (slot_table c l)) as [it|] eqn:Ea.
+      + apply assocN_Some_In in Ea. apply (Hi _ Ea).
+      + cbn [unused_item fst]. congruence. }
+  destruct (min_slot n (slot_table c l)) as [s|] eqn:E.
+  - destruct (min_slot_some _ _ E) as [[it [Hin Hn]] Hmin].
+    destruct (dir_item_at _ _ Hv Hin) as [Hit [Hs1 Hs2]].
+    apply (@find_map_seqN_from _ p f (nslots c l) 0 s); [lia|lia| |].
+    + unfold p, f. cbn [dirent_of_item d_name]. rewrite Hit. fold (item_name it). rewrite Hn. apply list_eqb_refl.
+    + intros i _ Hi. apply Hother. intros it' Hin' Hn'. pose proof (Hmin _ _ Hin' Hn'). lia.
+  - apply find_map_seqN_none. intros i _ _. apply Hother. intros it' Hin'. apply (@min_slot_none _ _ E _ _ Hin').
+Qed.
+
+Lemma nth_error_combine : forall (A B : Type) (a : list A) (b : list B) k x y,
+  nth_error a k = Some x -> nth_error b k = Some y -> nth_error (combine a b) k = Some (x, y).
+Proof.
+  induction a as [|a0 a IH]; intros [|b0 b] [|k] x y Ha Hb; cbn in *; try discriminate.
+  - congruence.
+  - apply IH; assumption.
+Qed.
+
+(* the k-th stream: its chain, and its entry in its slot *)
+Lemma stream_item_at : forall c l k n b s, valid_layout c l ->
+  nth_error (c_streams c) k = Some (n, b) -> stream_slot c l k = Some s ->
+  exists ch, In ((n, b), ch) (stream_chains c l) /\
+             In (s, stream_item l ((n, b), ch)) (slot_table c l).
+Proof.
+  intros c l k n b s Hv Hk Hs. destruct (valid_dir Hv) as [_ [_ [_ [Hlc _]]]].
+  assert (Hlt : (k < length (l_chains l))%nat).
+  { rewrite Hlc. apply nth_error_Some. rewrite Hk. discriminate. }
+  destruct (nth_error (l_chains l) k) as [ch|] eqn:Ech; [|apply nth_error_None in Ech; lia].
+  exists ch.
+  assert (Hsc : nth_error (stream_chains c l) k = Some ((n, b), ch))
+    by (unfold stream_chains; apply nth_error_combine; assumption).
+  split; [apply (nth_error_In _ _ Hsc)|].
+  apply (nth_error_In (slot_table c l) (length (c_storages c) + k)).
+  unfold slot_table. apply nth_error_combine; [exact Hs|].
+  unfold items. rewrite nth_error_app2 by (rewrite map_length; lia).
+  rewrite map_length. replace (length (c_storages c) + k - length (c_storages c))%nat with k by lia.
+  fold (stream_item l). rewrite (map_nth_error (stream_item l) _ _ Hsc). reflexivity.
+Qed.
+
+(* the general statement: the k-th stream is read back as soon as no object of the same name
+   sits in a lower directory slot *)
+Theorem get_stream_first : forall c l cf r, valid_layout c l -> written_cfb c l cf r ->
+  forall k n b s, nth_error (c_streams c) k = Some (n, b) -> stream_slot c l k = Some s ->
+  first_slot c l n = Some s ->
+  exists c' r', get_stream cf n r = Ok (b, c', r').
+Proof.
+  intros c l cf r Hv Hw k n b s Hk Hs Hfirst.
+  destruct (@stream_item_at c l k n b s Hv Hk Hs) as [ch [Hch Hin]].
+  destruct (valid_dir Hv) as [_ [_ [_ [_ [Hval _]]]]].
+  pose proof (slot_table_names _ _ _ _ Hin) as Hn. cbn [stream_item item_name fst snd] in Hn.
+  destruct (@valid_name_not_special n (Hval _ Hn)) as [Hne Hnr].
+  pose proof (@find_dir_first c l n Hv Hne Hnr) as Hf. rewrite Hfirst in Hf.
+  destruct (dir_item_at _ _ Hv Hin) as [Hit _]. rewrite Hit in Hf.
+  pose proof Hw as (Hdirs & _). rewrite <- Hdirs in Hf.
+  apply (@get_stream_of_entry c l cf r Hv Hw n b ch Hch Hf).
+Qed.
+
+Theorem layout_independent_first : forall c l fuel, valid_layout c l -> (fuel_for l <= fuel)%nat ->
+  forall k n b s, nth_error (c_streams c) k = Some (n, b) -> stream_slot c l k = Some s ->
+  first_slot c l n = Some s ->
+  cfb_get_stream fuel (cfb_write c l) n = Ok b.
+Proof.
+  intros c l fuel Hv Hfuel k n b s Hk Hs Hfirst. unfold cfb_get_stream.
+  destruct (cfb_new_written Hv Hfuel) as [cf [r [Hnew Hw]]]. rewrite Hnew. cbn [obind].
+  destruct (@get_stream_first c l cf r Hv Hw k n b s Hk Hs Hfirst) as [c' [r' Hg]]. rewrite Hg. reflexivity.
+Qed.
+
+(* a name carried by no object is not found *)
+Lemma get_stream_absent : forall c l cf r n, valid_layout c l -> written_cfb c l cf r ->
+  n <> [] -> n <> ROOT_NAME -> first_slot c l n = None -> get_stream cf n r = Err ERR_NOT_FOUND.
+Proof.
+  intros c l cf r n Hv (Hdirs & _) Hne Hnr Hnone. unfold get_stream.
+  rewrite Hdirs, (@find_dir_first c l n Hv Hne Hnr), Hnone. reflexivity.
+Qed.
+
+(* ------------------------------------------------------------------ Xls::parse_workbook *)
+Lemma workbook_names_ok : WORKBOOK <> [] /\ WORKBOOK <> ROOT_NAME /\ BOOK <> [] /\ BOOK <> ROOT_NAME.
+Proof. repeat split; discriminate. Qed.
+
+(* Excel's rule "Workbook preferred, Book as fallback", in ANY directory order: whatever slots
+   the two entries sit in, the workbook read is the stream Workbook when the lookup of that name
+   ends on it; with no object named Workbook at all it is Book *)
+Theorem workbook_stream_preferred : forall c l fuel, valid_layout c l -> (fuel_for l <= fuel)%nat ->
+  (forall k b s, nth_error (c_streams c) k = Some (WORKBOOK, b) -> stream_slot c l k = Some s ->
+     first_slot c l WORKBOOK = Some s -> xls_workbook_stream fuel (cfb_write c l) = Ok b) /\
+  (forall k b s, first_slot c l WORKBOOK = None ->
+     nth_error (c_streams c) k = Some (BOOK, b) -> stream_slot c l k = Some s ->
+     first_slot c l BOOK = Some s -> xls_workbook_stream fuel (cfb_write c l) = Ok b).
+Proof.
+  intros c l fuel Hv Hfuel. destruct workbook_names_ok as (W1 & W2 & B1 & B2).
+  destruct (cfb_new_written Hv Hfuel) as [cf [r [Hnew Hw]]].
+  unfold xls_workbook_stream. rewrite Hnew. cbn [obind]. unfold workbook_or_book. split.
+  - intros k b s Hk Hs Hf. destruct (@get_stream_first c l cf r Hv Hw k WORKBOOK b s Hk Hs Hf) as [c' [r' Hg]].
+    rewrite Hg. reflexivity.
+  - intros k b s Hnone Hk Hs Hf. rewrite (@get_stream_absent c l cf r WORKBOOK Hv Hw W1 W2 Hnone).
+    destruct (@get_stream_first c l cf r Hv Hw k BOOK b s Hk Hs Hf) as [c' [r' Hg]]. rewrite Hg. reflexivity.
+Qed.
+
+(* with names distinct over the whole file: a container holding both streams reads Workbook,
+   wherever the two entries are; one holding only Book reads Book *)
+Corollary workbook_stream_preferred_unique : forall c l fuel, valid_layout c l -> names_unique c ->
+  (fuel_for l <= fuel)%nat ->
+  (forall bw, In (WORKBOOK, bw) (c_streams c) -> xls_workbook_stream fuel (cfb_write c l) = Ok bw) /\
+  (forall bb, ~ In WORKBOOK (all_names c) -> In (BOOK, bb) (c_streams c) ->
+     xls_workbook_stream fuel (cfb_write c l) = Ok bb).
+Proof.
+  intros c l fuel Hv Hu Hfuel. destruct workbook_names_ok as (W1 & W2 & B1 & B2).
+  destruct (cfb_new_written Hv Hfuel) as [cf [r [Hnew Hw]]].
+  unfold xls_workbook_stream. rewrite Hnew. cbn [obind]. unfold workbook_or_book. split.
+  - intros bw Hin. destruct (@get_stream_written c l cf r Hv Hu Hw _ _ Hin) as [c' [r' Hg]]. rewrite Hg. reflexivity.
+  - intros bb Hno Hin.
+    rewrite (@get_stream_absent c l cf r WORKBOOK Hv Hw W1 W2).
+    + destruct (@get_stream_written c l cf r Hv Hu Hw _ _ Hin) as [c' [r' Hg]]. rewrite Hg. reflexivity.
+    + apply min_slot_none_iff. intros s it Hsi Hn. apply Hno. rewrite <- Hn. apply (slot_table_names _ _ _ _ Hsi).
+Qed.
+
+(* ------------------------------------------------------------------ any tree, outside class 2 *)
+Lemma root_stream_from_spec : forall c n ss k0 k b, root_stream_from c n k0 ss = Some (k, b) ->
+  (k0 <= k)%nat /\ nth_error ss (k - k0) = Some (n, b) /\ parent_of c (length (c_storages c) + k) = 0.
+Proof.
+  intros c n. induction ss as [|[n' b'] r IH]; intros k0 k b H; [discriminate|].
+  cbn [root_stream_from] in H.
+  destruct (list_eqb n' n && (parent_of c (length (c_storages c) + k0) =? 0)) eqn:E.
+  - inversion H; subst. apply andb_prop in E. destruct E as [E1 E2].
+    apply list_eqb_eq in E1. apply N.eqb_eq in E2. subst n'.
+    rewrite Nat.sub_diag. split; [lia|split; [reflexivity|exact E2]].
+  - destruct (IH _ _ _ H) as [H1 [H2 H3]]. split; [lia|split; [|exact H3]].
+    replace (k - k0)%nat with (S (k - S k0)) by lia. exact H2.
+Qed.
+
+Lemma root_stream_spec : forall c n k b, root_stream c n = Some (k, b) ->
+  nth_error (c_streams c) k = Some (n, b) /\ parent_of c (length (c_storages c) + k) = 0.
+Proof.
+  intros c n k b H. destruct (root_stream_from_spec _ _ _ _ H) as [_ [H2 H3]].
+  rewrite Nat.sub_0_r in H2. split; assumption.
+Qed.
+
+Lemma stream_slot_exists : forall c l k x, valid_layout c l -> nth_error (c_streams c) k = Some x ->
+  exists s, stream_slot c l k = Some s.
+Proof.
+  intros c l k x Hv Hk. destruct (valid_dir Hv) as [_ [_ [Hls _]]].
+  assert (Hlt : (k < length (c_streams c))%nat) by (apply nth_error_Some; rewrite Hk; discriminate).
+  unfold stream_slot. destruct (nth_error (l_slots l) (length (c_storages c) + k)) as [s|] eqn:E;
+    [exists s; reflexivity|]. apply nth_error_None in E. lia.
+Qed.
+
+(* MAIN for Xls::new over containers with a hierarchy: outside class 2 the bytes handed to the
+   BIFF parser are those of the root storage's Workbook stream, or of its Book stream when the
+   root has no Workbook — for every valid layout (any directory order) *)
+Theorem workbook_stream_known : forall c l fuel k b, valid_layout c l -> (fuel_for l <= fuel)%nat ->
+  spec_workbook c = Some (k, b) -> known_C13 c l = None ->
+  xls_workbook_stream fuel (cfb_write c l) = Ok b.
+Proof.
+  intros c l fuel k b Hv Hfuel Hspec Hknown.
+  unfold known_C13, wanted_slot in Hknown. rewrite Hspec in Hknown.
+  unfold spec_workbook in Hspec. destruct (root_stream c WORKBOOK) as [[k1 b1]|] eqn:Ew.
+  - inversion Hspec; subst k1 b1. destruct (root_stream_spec _ _ Ew) as [Hk _].
+    destruct (stream_slot_exists _ Hv Hk) as [s Hs]. rewrite Hs in Hknown.
+    destruct (@stream_item_at c l k WORKBOOK b s Hv Hk Hs) as [ch [_ Hin]].
+    unfold lookup_slot in Hknown. destruct (first_slot c l WORKBOOK) as [s1|] eqn:Ef.
+    + destruct (s1 =? s) eqn:E; [|discriminate]. apply N.eqb_eq in E. subst s1.
+      apply (proj1 (@workbook_stream_preferred c l fuel Hv Hfuel) k b s Hk Hs Ef).
+    + exfalso. apply (@min_slot_none _ _ Ef _ _ Hin). reflexivity.
+  - destruct (root_stream_spec _ _ Hspec) as [Hk _].
+    destruct (stream_slot_exists _ Hv Hk) as [s Hs]. rewrite Hs in Hknown.
+    destruct (@stream_item_at c l k BOOK b s Hv Hk Hs) as [ch [_ Hin]].
+    unfold lookup_slot in Hknown. destruct (first_slot c l WORKBOOK) as [s1|] eqn:Ef.
+    + destruct (s1 =? s) eqn:E; [|discriminate]. apply N.eqb_eq in E. subst s1.
+      exfalso. destruct (min_slot_some _ _ Ef) as [[it [Hin' Hn']] _].
+      rewrite (@slot_item_unique c l s _ _ Hv Hin' Hin) in Hn'. discriminate Hn'.
+    + destruct (first_slot c l BOOK) as [s2|] eqn:Eb.
+      * destruct (s2 =? s) eqn:E; [|discriminate]. apply N.eqb_eq in E. subst s2.
+        apply (proj2 (@workbook_stream_preferred c l fuel Hv Hfuel) k b s Ef Hk Hs Eb).
+      * exfalso. apply (@min_slot_none _ _ Eb _ _ Hin). reflexivity.
 Qed.
 
 (* ================================================================== Part 5: totality *)
